@@ -1792,3 +1792,120 @@ Proof.
   destruct (setter_protocol (pieces u) 11 (flags_of u) (segs_of u) file sch (pieces_PW u Hs) Hsch) as [Hr Hf].
   cbv zeta in Hr, Hf. rewrite Hr, Hf. split; [|reflexivity]. rewrite repr_of_conc. reflexivity.
 Qed.
+
+(* ---------------------------------------------------------------------------------- *)
+(* potentially_strip_trailing_spaces_from_an_opaque_path                               *)
+(* ---------------------------------------------------------------------------------- *)
+
+Lemma strip_spaces_rev_cons x t : strip_spaces_rev (x :: t) = if x =? 32 then strip_spaces_rev t else x :: t.
+Proof.
+  destruct (N.eqb_spec x 32) as [->|Hne]; [reflexivity|].
+  destruct x as [|p]; [reflexivity|].
+  repeat (destruct p as [p|p|]; try reflexivity). exfalso. apply Hne. reflexivity.
+Qed.
+
+Lemma strip_spaces_rev_drop l : strip_spaces_rev l = drop_while (fun c => c =? 32) l.
+Proof.
+  induction l as [|x t IH]; [reflexivity|]. rewrite strip_spaces_rev_cons. cbn [drop_while].
+  destruct (x =? 32); [exact IH|reflexivity].
+Qed.
+
+Lemma drop_while_app_stop (X Y : str) y : (y =? 32) = false ->
+  drop_while (fun c => c =? 32) (X ++ y :: Y) = drop_while (fun c => c =? 32) X ++ y :: Y.
+Proof.
+  intro Hy. induction X as [|x X IH]; cbn [app drop_while].
+  - rewrite Hy. reflexivity.
+  - destruct (x =? 32); [exact IH|reflexivity].
+Qed.
+
+(* the string in front of the opaque path ends with a code unit that is not a space (the ':' of the scheme) *)
+Lemma strip_concat (A P : str) a : (a =? 32) = false ->
+  rev (strip_spaces_rev (rev ((A ++ [a]) ++ P))) = (A ++ [a]) ++ strip_trailing_spaces P.
+Proof.
+  intro Ha. rewrite strip_spaces_rev_drop, !rev_app_distr. cbn [rev app].
+  rewrite (drop_while_app_stop (rev P) (rev A) a Ha). rewrite rev_app_distr. cbn [rev]. rewrite rev_involutive.
+  unfold strip_trailing_spaces. reflexivity.
+Qed.
+
+Theorem strip_conc ps n f c s A a :
+  PW ps n -> (9 <= n)%nat -> s_r s = conc ps n f c ->
+  N.testbit f 11 = true -> N.testbit f 10 = false -> N.testbit f 9 = false ->
+  concat (firstn 8 ps) = A ++ [a] -> (a =? 32) = false ->
+  nth 9 ps [] = [] -> nth 10 ps [] = [] ->
+  s_r (do_strip s) = conc (setp ps P_PATH (strip_trailing_spaces (nth 8 ps []))) n f c.
+Proof.
+  intros HPW Hn9 Hr Hb11 Hb10 Hb9 HA Ha H9 H10. pose proof HPW as [Hlen Hn Hsch Htail].
+  unfold do_strip. rewrite Hr.
+  assert (Hop : r_has_opaque_path (conc ps n f c) = true) by exact Hb11.
+  assert (Hnf : r_is_null (conc ps n f c) P_FRAGMENT = true) by (unfold r_is_null; change (N.of_nat P_FRAGMENT) with 10; unfold conc; cbn [r_flags]; rewrite Hb10; reflexivity).
+  assert (Hnq : r_is_null (conc ps n f c) P_QUERY = true) by (unfold r_is_null; change (N.of_nat P_QUERY) with 9; unfold conc; cbn [r_flags]; rewrite Hb9; reflexivity).
+  rewrite Hop, Hnf, Hnq. cbn [andb w_r s_r].
+  set (P := nth 8 ps []).
+  assert (Ht9 : forall j, (9 <= j)%nat -> nth j ps [] = []).
+  { intros j Hj. destruct (Nat.eq_dec j 9) as [->|]; [exact H9|]. destruct (Nat.eq_dec j 10) as [->|]; [exact H10|]. apply nth_overflow; lia. }
+  assert (Hnorm : concat ps = (A ++ [a]) ++ P).
+  { rewrite (concat_split ps 8), HA. f_equal. rewrite (skipn_nth_cons ps 8) by lia. cbn [concat]. fold P.
+    rewrite (concat_skipn_nil ps 9 9 Ht9) by lia.
+    apply app_nil_r. }
+  set (ps1 := setp ps 8 (strip_trailing_spaces P)).
+  assert (Hl1 : length ps1 = 11%nat) by (unfold ps1, setp; rewrite splice_length; lia).
+  assert (Hc1 : concat ps1 = (A ++ [a]) ++ strip_trailing_spaces P).
+  { unfold ps1, setp. rewrite splice_concat, HA.
+    rewrite (concat_skipn_nil ps 9 9 Ht9) by lia.
+    rewrite app_nil_r. reflexivity. }
+  unfold w_ends, w_norm, conc. cbn [r_norm r_ends r_flags r_segs]. change P_PATH with 8%nat. fold P. fold ps1.
+  rewrite Hnorm, (strip_concat A P a Ha). f_equal; [symmetry; exact Hc1|].
+  apply (nth_ext _ _ 0 0); [rewrite set_while_nz_from_length, !ends_of_length; lia|].
+  intros j Hj. rewrite set_while_nz_from_length, ends_of_length in Hj by lia.
+  rewrite (nth_set_while_nz_from _ 8 n _ j).
+  - rewrite !nth_ends_of by lia.
+    assert (Hpre1 : forall i, (i <= 8)%nat -> pre i ps1 = pre i ps).
+    { intros i Hi. unfold ps1, setp. rewrite pre_splice by (lia || (intro; lia)). destruct (Nat.leb_spec i 8); [reflexivity|lia]. }
+    destruct (Nat.leb_spec 8 j); destruct (Nat.ltb_spec j n); cbn [andb]; try reflexivity.
+    + (* from PATH on: the new length *)
+      assert (Htail1 : forall k, (9 <= k)%nat -> nth k ps1 [] = []).
+      { intros k Hk. unfold ps1. rewrite nth_setp by lia. destruct (Nat.eqb_spec k 8); [lia|].
+        destruct (Nat.eq_dec k 9) as [->|]; [exact H9|]. destruct (Nat.eq_dec k 10) as [->|]; [exact H10|]. apply nth_overflow; lia. }
+      rewrite (pre_tail ps1 9 (S j) Htail1) by lia. rewrite Hc1. reflexivity.
+    + symmetry. apply Hpre1. lia.
+  - lia.
+  - rewrite ends_of_length; lia.
+  - intros i Hi. rewrite nth_ends_of by lia. destruct (Nat.ltb_spec i n); [|lia].
+    pose proof (pre_pos ps (S i) Hsch ltac:(lia)). lia.
+  - rewrite nth_ends_of by lia. destruct (Nat.ltb_spec n n); [lia|reflexivity].
+Qed.
+
+(* hash("") on a URL with an opaque path and no query: clear_part(FRAGMENT), then the trailing spaces of the path go *)
+Theorem hash_clear_opaque_repr u file P : scheme u <> [] -> uhost u = None -> path u = POpaque P -> query u = None ->
+  s_r (run true (init_sst (repr_of u) file) [OClearPart P_FRAGMENT; OStrip]) =
+  repr_of (potentially_strip (set_fragment u None)).
+Proof.
+  intros Hs Hh Hp Hq.
+  change [OClearPart P_FRAGMENT; OStrip] with ([OClearPart P_FRAGMENT] ++ [OStrip]). rewrite run_snoc.
+  set (u1 := set_fragment u None).
+  assert (H1 : s_r (run true (init_sst (repr_of u) file) [OClearPart P_FRAGMENT]) = repr_of u1).
+  { rewrite repr_of_conc.
+    rewrite (setter_clear_part (pieces u) 11 (flags_of u) (segs_of u) file P_FRAGMENT (pieces_PW u Hs)) by (unfold P_FRAGMENT; lia).
+    unfold P_FRAGMENT. cbn [Nat.ltb Nat.leb N.of_nat Pos.of_succ_nat Pos.succ]. unfold u1. rewrite repr_of_conc, (pieces_set_fragment u None).
+    change (N.pos 10) with 10. rewrite flags_clear_fragment. reflexivity. }
+  cbn [step].
+  assert (Hs1 : scheme u1 <> []) by exact Hs.
+  assert (Hpieces : pieces u1 = [scheme u; [58]; []; []; []; []; []; []; P; []; []]).
+  { unfold pieces, u1, set_fragment, path_prefix, path_serialize. cbn [uhost port scheme username password path query fragment is_some].
+    rewrite Hh, Hp, Hq. reflexivity. }
+  pose proof (strip_conc (pieces u1) 11 (flags_of u1) (segs_of u1)
+                (run true (init_sst (repr_of u) file) [OClearPart P_FRAGMENT]) (scheme u) 58
+                (pieces_PW u1 Hs1) ltac:(lia)) as Hst.
+  rewrite H1, repr_of_conc in Hst. specialize (Hst eq_refl).
+  assert (Hfl : flags_of u1 = 269 + 2048).
+  { unfold flags_of, u1, set_fragment, has_opaque_path. cbn [uhost port query fragment path is_some]. rewrite Hh, Hp, Hq. reflexivity. }
+  rewrite Hfl in Hst. specialize (Hst eq_refl eq_refl eq_refl).
+  rewrite Hpieces in Hst. specialize (Hst eq_refl eq_refl eq_refl eq_refl). cbn [nth] in Hst.
+  rewrite Hst. unfold potentially_strip, u1, set_fragment. cbn [path fragment query is_some]. rewrite Hp, Hq. cbn [orb].
+  rewrite repr_of_conc. unfold conc. f_equal.
+  - unfold pieces, set_path, path_prefix, path_serialize. cbn [uhost port scheme username password path query fragment is_some].
+    rewrite Hh. reflexivity.
+  - unfold pieces, set_path, path_prefix, path_serialize. cbn [uhost port scheme username password path query fragment is_some].
+    rewrite Hh. reflexivity.
+  - unfold flags_of, set_path, has_opaque_path. cbn [uhost port query fragment path is_some]. rewrite Hh. reflexivity.
+Qed.
